@@ -80,9 +80,35 @@ fn wd_index(d: WD) -> usize {
 
 /// (inner lint, problem text, is markdown) out of the JSON text of a wasm Lint (its fields are private).
 fn split_wlint(j: &str) -> (CLint, String, bool) {
-    let v: Value = serde_json::from_str(j).unwrap();
-    let inner: CLint = serde_json::from_value(v["inner"].clone()).unwrap();
-    (inner, v["problem_text"].as_str().unwrap().to_string(), v["language"].as_str() == Some("Markdown"))
+    let v: Value = serde_json::from_str(j).unwrap_or(Value::Null);
+    let inner: CLint = serde_json::from_value(v["inner"].clone()).unwrap_or_default();
+    (inner, v["problem_text"].as_str().unwrap_or("").to_string(), v["language"].as_str() == Some("Markdown"))
+}
+/// "Lints ... survive their JSON round trip unchanged": through from_json(to_json(l)) every accessor
+/// and the JSON text itself must be the same.  Returns a description of the first difference.
+fn roundtrip_defect(l: &WLint) -> Option<String> {
+    let j = l.to_json();
+    let back = match WLint::from_json(j.clone()) {
+        Ok(b) => b,
+        Err(e) => return Some(format!("from_json refuses the output of to_json ({e}): {j}")),
+    };
+    let sugs = |x: &WLint| x.suggestions().iter().map(|s| (s.kind() as usize, s.get_replacement_text(), s.to_json())).collect::<Vec<_>>();
+    let diff = if back.get_problem_text() != l.get_problem_text() {
+        "problem text"
+    } else if (back.span().start, back.span().end) != (l.span().start, l.span().end) {
+        "span"
+    } else if back.message() != l.message() {
+        "message"
+    } else if back.lint_kind() != l.lint_kind() || back.lint_kind_pretty() != l.lint_kind_pretty() {
+        "lint kind"
+    } else if sugs(&back) != sugs(l) {
+        "suggestions"
+    } else if back.to_json() != j {
+        "JSON text"
+    } else {
+        return None;
+    };
+    Some(format!("the {diff} of a lint changed in from_json(to_json(..)): {j}"))
 }
 fn wlint_json(inner: &CLint, problem: &str, md: bool) -> String {
     json!({"inner": inner, "problem_text": problem, "language": if md {"Markdown"} else {"Plain"}}).to_string()
@@ -450,6 +476,13 @@ impl<'a> Hist<'a> {
         // the overlay of the curated configuration must be undone
         if self.api.get_lint_config_as_json() != cfg_json {
             self.fail("config_changed_by_lint", "get_lint_config_as_json differs before and after lint".into());
+        }
+        // ---- property oracle: JSON round trip of what was returned ----
+        for l in &lints {
+            if let Some(d) = roundtrip_defect(l) {
+                self.fail("json_roundtrip", d);
+                break;
+            }
         }
         // ---- property oracle: in bounds, problem text, no overlap ----
         let src: Vec<char> = text.chars().collect();
@@ -917,6 +950,9 @@ fn check_json_lint(rep: &mut Report, inner: &CLint, problem: &str, md: bool, ori
     };
     let j = w.to_json();
     rep.case(&format!("JL {}", enc_wlint(inner, problem, md)), &j);
+    if w.get_problem_text() != problem || w.message() != inner.message {
+        rep.fail("json_roundtrip", format!("Lint::from_json lost a field of {built}"), inp.clone());
+    }
     // ---- property oracle: the round trip changes nothing ----
     match WLint::from_json(j.clone()) {
         Ok(w2) => {
@@ -1137,6 +1173,12 @@ fn gen_scenario(r: &mut Rng) -> (usize, Vec<Op>) {
             }
             ops.push(Op::IgnoredRoundtrip);
             ops.push(Op::ExportIgnored);
+            if r.chance(1, 2) {
+                // import must ADD to what is ignored: ignore one more, re-import the older export
+                ops.push(Op::Ignore { lint: r.below(12), text: None });
+                ops.push(Op::ImportIgnored { which: 0 });
+                ops.push(Op::Lint { text: text.clone(), md: false });
+            }
             ops.push(Op::ClearIgnored);
             ops.push(Op::Lint { text: text.clone(), md: false });
             ops.push(Op::ImportIgnored { which: 0 });
@@ -1271,6 +1313,71 @@ fn main() {
         let pt = random_string(&mut r, 6);
         let md = r.chance(1, 2);
         check_json_lint(&mut rep, &l, &pt, md, "random");
+    }
+    if args.thorough() {
+        // exhaustive: every message / problem text / replacement of length <= 2 over the escape-relevant alphabet
+        let mut n = 0u64;
+        let mut strs: Vec<String> = vec![String::new()];
+        for a in NASTY {
+            strs.push(a.to_string());
+            for b in NASTY {
+                strs.push(format!("{a}{b}"));
+            }
+        }
+        for (i, st) in strs.iter().enumerate() {
+            let kinds = [LintKind::Spelling, LintKind::Capitalization, LintKind::Style, LintKind::Formatting, LintKind::Repetition, LintKind::Enhancement, LintKind::Readability, LintKind::WordChoice, LintKind::Miscellaneous, LintKind::Punctuation];
+            let cs: Vec<char> = st.chars().collect();
+            let l = CLint {
+                span: Span { start: i % 7, end: i % 7 + i % 3 },
+                lint_kind: kinds[i % 10],
+                suggestions: vec![CSug::ReplaceWith(cs.clone()), CSug::InsertAfter(cs.clone()), CSug::Remove],
+                message: st.clone(),
+                priority: (i % 256) as u8,
+            };
+            check_json_lint(&mut rep, &l, st, i % 2 == 0, "exhaustive");
+            n += 1;
+        }
+        rep.extra.insert("exhaustive_json_strings_le2_over_escape_alphabet".into(), json!(n));
+        // exhaustive: every history of <= 3 calls over a fixed call alphabet, after a first lint, on one dense text
+        let t = "I zorgle an problem here, a a lot of teh the the time.".to_string();
+        let alphabet: Vec<Op> = vec![
+            Op::Lint { text: t.clone(), md: false },
+            Op::Lint { text: t.clone(), md: true },
+            Op::Ignore { lint: 0, text: None },
+            Op::Ignore { lint: 2, text: None },
+            Op::Apply { lint: 1, sug: 0, text: None },
+            Op::ImportWords { words: vec!["zorgle".into()] },
+            Op::ImportWords { words: vec!["Zorgle".into()] },
+            Op::IgnoredRoundtrip,
+            Op::ClearIgnored,
+            Op::WordsRoundtrip,
+            Op::SetConfig { json: "{\"AnA\":false,\"SpellCheck\":null}".into(), bad: false },
+            Op::SetConfig { json: all_rules_json(true), bad: false },
+        ];
+        let mut hcount = 0u64;
+        for len in 1..=3usize {
+            let mut idx = vec![0usize; len];
+            loop {
+                let mut ops = vec![Op::Lint { text: t.clone(), md: false }];
+                ops.extend(idx.iter().map(|i| alphabet[*i].clone()));
+                ops.push(Op::Lint { text: t.clone(), md: false });
+                run_history(&mut rep, &keys, &mut intern, hcount as usize % 4, &ops, "exhaustive", false);
+                hcount += 1;
+                let mut k = 0;
+                while k < len {
+                    idx[k] += 1;
+                    if idx[k] < alphabet.len() {
+                        break;
+                    }
+                    idx[k] = 0;
+                    k += 1;
+                }
+                if k == len {
+                    break;
+                }
+            }
+        }
+        rep.extra.insert("exhaustive_histories_le3_over_12_calls".into(), json!(hcount));
     }
     for _ in 0..args.scale(100, 2000) {
         let n = r.below(5);
